@@ -16,8 +16,10 @@
      * an array reached WITHOUT a numeric segment is entered through member 0 whatever
        its length (D31, known finding); a numeric segment on a one-member array is
        accepted although the stored entry carries no index.
-   Since fix 8c11b39 (D14) a numeric segment must address an array, be in range, and
-   the walk continues in the selected member.
+     * a numeric segment on a value that is NOT an array is copied without any check
+       (D14 non-array part, known finding, pinned by the repository's TestIPFSContext).
+   Since fix 7a3eec3 (D14) a numeric segment on an array must be in range, and the walk
+   continues in the selected member.
    The dotted path is given already split at "." (strings.Split). *)
 From Coq Require Import ZArith List String Ascii Bool Arith.
 From GSP Require Import Base.Prelude RDF.Model JsonLD.Model.
@@ -65,8 +67,9 @@ Fixpoint pfd (ld : loader) (pi : list string) (G : option ctx) (doc : json) (acc
   | term :: rest =>
       if is_num term then
         if Z.leb (num_val term) max_int32 then
-          (* fix 8c11b39: the segment must address an array of the document and be in range;
-             the walk continues in the selected member *)
+          (* fix 7a3eec3: on an array the segment must be in range and the walk continues in
+             the selected member; on any other value the old behaviour is kept (pinned by the
+             repository's TestIPFSContext): the index is copied, the walk stays on the value *)
           match doc with
           | JArr l =>
               match nth_error l (Z.to_nat (num_val term)) with
@@ -75,7 +78,9 @@ Fixpoint pfd (ld : loader) (pi : list string) (G : option ctx) (doc : json) (acc
                   Ok (PInt (num_val term) :: more)
               | None => Err "index-out-of-range"
               end
-          | _ => Err "not-an-array"
+          | _ =>
+              more <- pfd ld rest G doc true ;;
+              Ok (PInt (num_val term) :: more)
           end
         else Err "parse-int"
       else
